@@ -21,8 +21,20 @@ func predecessorCase(k *engine.Case) {
 		_ = old.Add(9000+i, false, false)
 	}
 	for i := 0; i < used; i++ {
-		if v, ok := old.Pop(i%2 == 0); !ok || v != 9000+i {
-			k.Fail("lost-item", "%s: item %d pushed on a fresh queue came back as (%d, %v)", old.Name(), 9000+i, v, ok)
+		anyway := i%2 == 0
+		o := d.Spawn("Pop on the first queue", func() any { v, ok := old.Pop(anyway); return popRes{v, ok} })
+		if !d.Quiesce() {
+			old.Close()
+			return
+		}
+		if !o.Done() {
+			k.Fail("lost-wakeup", "%s: %d items were pushed on a fresh queue; pop #%d sleeps beside them", old.Name(), used, i)
+			old.Close()
+			return
+		}
+		if pr := o.Result().(popRes); !pr.ok || pr.v != 9000+i {
+			k.Fail("lost-item", "%s: item %d pushed on a fresh queue came back as %+v", old.Name(), 9000+i, pr)
+			old.Close()
 			return
 		}
 	}
